@@ -31,6 +31,10 @@ TEXT = {
     "C06.fresh-read": "a scalar copied out of the plan data (planExists, task bounds, success / failure marks, region statuses) into a local is not used after a "
                       "call that may change that very field - a library function whose transitive effects write it, or anything that reaches a user callback "
                       "holding a Plan/Full/EventControl (which may attach, edit or clear plans and report success or failure): the copy would be stale",
+    "C06.scope": "the scope objects that re-target a control for the duration of a region / state (ControlT::Region, ControlT::Origin, PlanControlT::Region) save, "
+                 "in every member named prev*, the control's *current* value of the field they are about to overwrite (an initialiser reading control.<field>, each "
+                 "field once), and their destructor hands exactly those members back: otherwise the enclosing scope continues with the nested scope's region id / "
+                 "head / size and in-region requests are taken for outer transitions (the plan is not advanced)",
     "C06.marks": "S_::deepExit calls planData.clearTaskStatus(STATE_ID) after the user's exit; clearTaskStatus clears both the success and the failure bit of the "
                  "state; clearStatuses clears successes, failures, head and sub statuses; A_::planSucceeded/planFailed defaults call control.succeed()/fail(); "
                  "TaskStatus::Result is ordered NONE < SUCCESS < FAILURE and | / |= take the maximum",
@@ -39,7 +43,7 @@ TEXT = {
                     "region), under an origin scope naming the region head",
     "C06.siblings": "the payload and void copies of updatePlan and of the PlanDataT members agree statement for statement modulo the payload arm",
 }
-MIN_INSTANCES = {"C06.defaults": 2, "C06.task-fields": 1, "C06.exec-guards": 1, "C06.routing": 3, "C06.status-accumulators": 8, "C06.own-status": 6, "C06.fresh-read": 2, "C06.marks": 5, "C06.siblings": 3}
+MIN_INSTANCES = {"C06.defaults": 2, "C06.task-fields": 1, "C06.exec-guards": 1, "C06.routing": 3, "C06.status-accumulators": 8, "C06.own-status": 6, "C06.fresh-read": 2, "C06.scope": 3, "C06.marks": 5, "C06.siblings": 3}
 
 
 def declare(ctx):
@@ -60,6 +64,7 @@ def check(ctx, F):
     check_routing(ctx, F)
     check_accumulators(ctx, F)
     check_own_status(ctx, F)
+    check_scope(ctx, F)
     check_fresh_read(ctx, F)
     from . import C01
     C01.check_ortho_all(C03x._Alias(ctx, {"C01.ortho-all": "C06.routing"}), F, only=("wideUpdatePlans", "widePreUpdate", "wideUpdate", "widePostUpdate",
@@ -70,6 +75,8 @@ def check(ctx, F):
     # "in order ... no earlier task of that plan": the order is the plan's link list; its maintenance is shared with C07 (same rule instances)
     from . import C07, C03
     C07.check_link(C03._Alias(ctx, {"C07.link": "C06.exec-guards"}), F)
+    # "... or, if the attached plan has no tasks left, the head receives planSucceeded": who may clear the plan-owner bit (shared instances of C07.writers)
+    C07.check_writers(C03._Alias(ctx, {"C07.writers": "C06.routing"}), F)
 
 
 def check_defaults(ctx, F):
@@ -557,6 +564,80 @@ def check_fresh_read(ctx, F):
             ctx.violation("C06.fresh-read", site + "/" + bad[0], "%s (%s)" % (site, F.floc(fid)),
                           "local `%s` copies planData.%s and is used after the call to %s(), which may change that field (directly or through a user callback "
                           "that edits plans): the decision is taken on a stale value" % (bad[0], bad[2], bad[1]), {})
+
+
+def check_scope_order(ctx, F, rule="C06.scope"):
+    """a region member that opens a region scope opens it before it hands the control to the region's head or sub-states: inside their callbacks
+    control.plan(), regionId() and the outer-transition test refer to the scope that is open"""
+    for fid, b in F.bodies.items():
+        if not b["inst"] or b.get("cls") not in ("C_", "O_") or not b["name"].startswith("deep"):
+            continue
+        if b["name"] == "deepUpdatePlans":
+            # no callback of this region runs in the first part (S_::deepUpdatePlans is empty, sub-regions open their own scope); the scope is opened
+            # for the head's planSucceeded / planFailed further down - decided by C06.routing
+            continue
+        site = "%s::%s" % (b["cls"], b["name"])
+        has_scope = any(x.get("k") in ("ctor", "call") and "f" in x and F.fn(x["f"]).get("cls") == "Region" and F.fn(x["f"]).get("kind") == "ctor"
+                        for x in walk(b.get("body") or {}))
+        if not has_scope:
+            continue
+        bad = None
+        for p in paths_of(ctx, F, fid):
+            opened = False
+            for ev in p:
+                if ev[0] != "call" or ev[2] is None:
+                    continue
+                cf = F.fn(ev[2])
+                if cf.get("cls") == "Region" and cf.get("kind") == "ctor":
+                    opened = True
+                elif cf.get("cls") in ("S_", "CS_", "OS_") and (cf["name"].startswith("deep") or cf["name"].startswith("wide")) and \
+                        any("P:control" == a or (a or "").startswith("P:control") for a in (ev[4] or [])):
+                    if not opened:
+                        bad = "%s::%s receives the control before the region scope is opened" % (cf.get("cls"), cf["name"])
+        ctx.instance(rule, site + "/scope-first", {"function": site, "loc": F.floc(fid)})
+        if bad:
+            ctx.violation(rule, site + "/scope-first", "%s (%s)" % (site, F.floc(fid)),
+                          bad + ": inside that callback control.plan() edits the *enclosing* region's plan and requests are judged against its range", {})
+
+
+def check_scope(ctx, F):
+    check_scope_order(ctx, F)
+    done = set()
+    for fid, b in F.bodies.items():
+        if not b["inst"] or b.get("kind") != "ctor" or b.get("cls") not in ("Region", "Origin"):
+            continue
+        t = F.type(b["tid"]) or {}
+        outer = t.get("outername") or "?"
+        site = "%s::%s::%s" % (outer, b["cls"], b["cls"])
+        if (site, F.floc(fid)) in done:
+            continue
+        done.add((site, F.floc(fid)))
+        saved = {}
+        bad = None
+        for i in b.get("inits") or []:
+            m = i.get("member")
+            if not m or not m.startswith("prev"):
+                continue
+            e = strip(i.get("init") or {})
+            while e.get("k") in ("ctor", "cast", "ilist") and (e.get("a") or e.get("e")):
+                e = strip(e["a"][0] if e.get("k") in ("ctor", "ilist") else e["e"])
+            src = None
+            if e.get("k") == "mem":
+                base = strip(e.get("b") or {})
+                if base.get("k") == "var" and base.get("d") in ("param", "member") or base.get("k") == "mem":
+                    src = e.get("n")
+            if src is None:
+                bad = "`%s` is initialised with `%s`, not with the control's current value of a field" % (m, _expr_txt(i.get("init") or {}))
+            elif src in saved.values():
+                bad = "`%s` saves control.%s, which another member already saves" % (m, src)
+            saved[m] = src
+        if not saved:
+            continue
+        ctx.instance("C06.scope", site, {"function": site, "loc": F.floc(fid), "saved": saved})
+        if bad:
+            ctx.violation("C06.scope", site, "%s (%s)" % (site, F.floc(fid)),
+                          "%s: when this scope ends the control is handed a value that was never its own, the enclosing scope continues with the wrong region "
+                          "id / head / size" % bad, {})
 
 
 STATUS_MEMBERS = {"deepPreUpdate": ("widePreUpdate", "preUpdate"), "deepUpdate": ("wideUpdate", "update"), "deepPostUpdate": ("postUpdate", "widePostUpdate"),
